@@ -9,6 +9,8 @@ CONSTANTS
   InitBals <- MCInitBals
   Amounts <- MCAmounts
   FaultKinds <- MCNone
+  AdvChannels <- MCNone
+  ProofSound = TRUE
   RevKinds <- MCNone
   NAdd <- MCAdd
   NSub <- MCSub
@@ -16,6 +18,6 @@ CONSTANTS
   NZero = 0
   MaxBal = 3
   UMax = 7
-INVARIANTS TypeOK CanClose LedgerShape Conservation HeldSigsValid TagSeparation IssuedMatchesLedger TokenOnlyAfterRevocation ClosedOnUnrevoked MerchantExposureBounded
+INVARIANTS TypeOK CanClose LedgerShape Conservation HeldSigsValid TagSeparation IssuedMatchesLedger TokenOnlyAfterRevocation ClosedOnUnrevoked MerchantExposureBounded NoDoubleSpend
 PROPERTIES RefusedStartInert HonestAccepted ReleaseOnlyOnAccept EventuallySettled
 CHECK_DEADLOCK FALSE
